@@ -697,13 +697,14 @@ Proof.
   assert (G : is_perm (length outs) (fst (get_perm tape (length outs))) = true ->
               Permutation (map (fun i => nth i outs (0, 0, false)) (fst (get_perm tape (length outs)))) outs).
   { intros Hp. apply is_perm_Permutation in Hp.
-    rewrite <- (map_nth_seq arc outs (0, 0, false)) at 3. apply Permutation_map. exact Hp. }
+    apply (Permutation_map (fun i => nth i outs (0, 0, false))) in Hp.
+    rewrite map_nth_seq in Hp. exact Hp. }
   destruct outs as [|a [|b r]].
-  - unfold order_outs. destruct (get_perm tape (length (@nil arc))) as [p t] eqn:E.
-    simpl in H. rewrite E in *. simpl in *. apply G. exact H.
+  - specialize (G H). clear H. unfold order_outs. revert G. simpl length.
+    destruct (get_perm tape 0) as [p t]. simpl. auto.
   - simpl. apply Permutation_refl.
-  - unfold order_outs. destruct (get_perm tape (length (a :: b :: r))) as [p t] eqn:E.
-    unfold outs_ok in H. rewrite E in *. simpl fst in *. apply G. exact H.
+  - specialize (G H). clear H. unfold order_outs. revert G.
+    destruct (get_perm tape (length (a :: b :: r))) as [p t]. simpl. auto.
 Qed.
 
 (* index_of *)
@@ -838,3 +839,237 @@ Proof.
   intros l x Hl Hx. eapply Permutation_NoDup; [apply Permutation_cons_append|].
   constructor; auto.
 Qed.
+
+(* --- invariants of seqgen ------------------------------------------- *)
+
+Section SeqGen.
+Variables (reset : bool) (stops : list nat) (arcs : list arc).
+Hypothesis Hnd : NoDup stops.
+Hypothesis Hwf : arcs_wf stops arcs.
+
+(* number of arcs into x whose origin is not yet placed *)
+Definition cnt (sequence : list nat) (x : nat) : nat :=
+  length (filter (fun a : arc => Nat.eqb (snd (fst a)) x &&
+                                 negb (existsb (Nat.eqb (fst (fst a))) sequence)) arcs).
+
+Definition deg_tab (sequence : list nat) : indeg := tab stops (cnt sequence).
+
+Lemma initial_deg_tab : initial_deg stops arcs = deg_tab [].
+Proof.
+  unfold initial_deg, deg_tab, tab, cnt. apply map_ext. intros x. f_equal. f_equal.
+  apply filter_ext. intros a. simpl. rewrite andb_true_r. reflexivity.
+Qed.
+
+Lemma cnt_step : forall sequence stop x, ~ In stop sequence ->
+  cnt sequence x = cnt (sequence ++ [stop]) x + c_in (outbound arcs stop) x.
+Proof.
+  intros sequence stop x Hs. unfold cnt, c_in, outbound. clear Hwf.
+  induction arcs as [|a l IH]; simpl; auto.
+  rewrite existsb_app. simpl. rewrite orb_false_r.
+  destruct (Nat.eqb_spec (fst (fst a)) stop) as [Eo|Eo].
+  - assert (E : existsb (Nat.eqb (fst (fst a))) sequence = false).
+    { apply existsb_eqb_notIn. rewrite Eo. exact Hs. }
+    rewrite E. simpl. rewrite andb_false_r.
+    destruct (Nat.eqb (snd (fst a)) x); simpl; rewrite IH; lia.
+  - rewrite orb_false_r.
+    destruct (Nat.eqb (snd (fst a)) x && negb (existsb (Nat.eqb (fst (fst a))) sequence)); simpl;
+      rewrite IH; lia.
+Qed.
+
+Lemma cnt_zero_iff : forall sequence x,
+  cnt sequence x = 0 <-> (forall o dir, In (o, x, dir) arcs -> In o sequence).
+Proof.
+  intros sequence x. unfold cnt. split.
+  - intros H o dir Hin. destruct (existsb (Nat.eqb o) sequence) eqn:E.
+    + apply existsb_eqb_In. exact E.
+    + exfalso.
+      assert (Hf : In (o, x, dir)
+        (filter (fun a : arc => Nat.eqb (snd (fst a)) x &&
+                                negb (existsb (Nat.eqb (fst (fst a))) sequence)) arcs)).
+      { apply filter_In. split; auto. simpl. rewrite Nat.eqb_refl, E. reflexivity. }
+      destruct (filter _ arcs); [destruct Hf | discriminate].
+  - intros H.
+    destruct (filter (fun a : arc => Nat.eqb (snd (fst a)) x &&
+                                negb (existsb (Nat.eqb (fst (fst a))) sequence)) arcs) as [|a r] eqn:E; auto.
+    exfalso. assert (Ha : In a (a :: r)) by (left; auto). rewrite <- E in Ha.
+    apply filter_In in Ha. destruct Ha as [Ha Hc]. apply andb_true_iff in Hc.
+    destruct Hc as [H1 H2]. apply Nat.eqb_eq in H1. apply negb_true_iff in H2.
+    apply existsb_eqb_notIn in H2. apply H2.
+    destruct a as [[o d] dir]. simpl in *. subst. eapply H. exact Ha.
+Qed.
+
+Lemma dec_deg_step : forall sequence stop L,
+  ~ In stop sequence -> Permutation L (outbound arcs stop) ->
+  dec_deg L (deg_tab sequence) = deg_tab (sequence ++ [stop]).
+Proof.
+  intros sequence stop L Hs HL. unfold deg_tab. rewrite dec_deg_tab. apply tab_ext. intros x.
+  rewrite (c_in_perm _ _ x HL), (cnt_step sequence stop x Hs). lia.
+Qed.
+
+Lemma inc_deg_step : forall sequence stop,
+  ~ In stop sequence ->
+  inc_deg (outbound arcs stop) (deg_tab (sequence ++ [stop])) = deg_tab sequence.
+Proof.
+  intros sequence stop Hs. unfold deg_tab. rewrite inc_deg_tab. apply tab_ext. intros x.
+  rewrite (cnt_step sequence stop x Hs). lia.
+Qed.
+
+(* a placed prefix respects the arcs among placed stops; a direct successor that is
+   still missing belongs to the last placed stop *)
+Definition prefix_ok (sequence : list nat) : Prop :=
+  forall o d dir, In (o, d, dir) arcs ->
+    (In d sequence ->
+       index_of o sequence < index_of d sequence /\
+       (dir = true -> index_of d sequence = S (index_of o sequence))) /\
+    (dir = true -> In o sequence -> ~ In d sequence -> S (index_of o sequence) = length sequence).
+
+Definition Inv0 (used sequence : list nat) : Prop :=
+  NoDup sequence /\ incl sequence stops /\
+  (forall idx, idx < length stops -> (In idx used <-> In (nth idx stops 0) sequence)) /\
+  prefix_ok sequence.
+
+(* [direct] records the pending direct successor (with reset = true: exactly) *)
+Definition InvD (sequence : list nat) (direct : option nat) : Prop :=
+  (forall o d, In (o, d, true) arcs -> In o sequence -> ~ In d sequence -> direct = Some d) /\
+  (reset = true -> forall d, direct = Some d ->
+     exists o, In (o, d, true) arcs /\ In o sequence /\ S (index_of o sequence) = length sequence).
+
+(* the candidate is compatible with a pending direct successor *)
+Definition compat (sequence : list nat) (stop : nat) : Prop :=
+  forall o d, In (o, d, true) arcs -> In o sequence -> ~ In d sequence -> stop = d.
+
+Lemma Inv0_init : Inv0 [] [].
+Proof.
+  split; [constructor|]. split; [intros x []|]. split.
+  - intros idx _. simpl. tauto.
+  - intros o d dir _. split; [intros []|]. intros _ [].
+Qed.
+
+Lemma InvD_init : InvD [] None.
+Proof.
+  split.
+  - intros o d _ [].
+  - intros _ d H. discriminate.
+Qed.
+
+Lemma nth_inj : forall i j, i < length stops -> j < length stops ->
+  nth i stops 0 = nth j stops 0 -> i = j.
+Proof. intros i j Hi Hj E. eapply (proj1 (NoDup_nth stops 0)); eauto. Qed.
+
+Lemma Inv0_step : forall used sequence idx,
+  Inv0 used sequence -> idx < length stops -> ~ In idx used ->
+  cnt sequence (nth idx stops 0) = 0 -> compat sequence (nth idx stops 0) ->
+  Inv0 (idx :: used) (sequence ++ [nth idx stops 0]).
+Proof.
+  intros used sequence idx (Hn & Hi & Hu & Hp) Hidx Hnu Hc Hcompat.
+  set (stop := nth idx stops 0) in *.
+  assert (Hs : ~ In stop sequence) by (intro H; apply Hnu, Hu; auto).
+  assert (Hlen : length (sequence ++ [stop]) = S (length sequence))
+    by (rewrite app_length; simpl; lia).
+  assert (Hstop : index_of stop (sequence ++ [stop]) = length sequence).
+  { rewrite index_of_app_notin by exact Hs. simpl. rewrite Nat.eqb_refl. lia. }
+  split; [apply NoDup_snoc; auto|]. split; [|split].
+  - intros x Hx. apply in_app_iff in Hx. destruct Hx as [Hx|[<-|[]]]; auto.
+    apply nth_In. exact Hidx.
+  - intros j Hj. simpl. rewrite in_app_iff. simpl. rewrite (Hu j Hj). split.
+    + intros [<-|H]; auto.
+    + intros [H|[H|[]]]; auto. left. apply nth_inj; auto.
+  - intros o d dir Ha. destruct (Hp o d dir Ha) as [Hp1 Hp2].
+    pose proof (proj1 (cnt_zero_iff sequence stop) Hc) as Hpreds.
+    split.
+    + intros Hd. apply in_app_iff in Hd. destruct Hd as [Hd|[<-|[]]].
+      * destruct (Hp1 Hd) as [Hlt Hdir].
+        assert (Ho : In o sequence) by (apply index_of_lt_In; pose proof (proj2 (index_of_lt_In d sequence) Hd); lia).
+        rewrite !index_of_app_in by assumption. auto.
+      * assert (Ho : In o sequence) by (eapply Hpreds; eauto).
+        rewrite Hstop, (index_of_app_in o) by assumption. split.
+        -- apply index_of_lt_In. exact Ho.
+        -- intros ->. symmetry. apply Hp2; auto.
+    + intros -> Ho Hd. rewrite in_app_iff in Hd. rewrite Hlen.
+      apply in_app_iff in Ho. destruct Ho as [Ho|[<-|[]]].
+      * exfalso. destruct (in_dec Nat.eq_dec d sequence) as [Hin|Hnin]; [tauto|].
+        apply Hd. right. left. apply (Hcompat o d); auto.
+      * rewrite Hstop. reflexivity.
+Qed.
+
+Lemma InvD_step : forall used sequence idx L init,
+  Inv0 used sequence -> idx < length stops -> ~ In idx used ->
+  compat sequence (nth idx stops 0) ->
+  Permutation L (outbound arcs (nth idx stops 0)) ->
+  (reset = true -> init = None) ->
+  InvD (sequence ++ [nth idx stops 0]) (next_ds L init).
+Proof.
+  intros used sequence idx L init (Hn & Hi & Hu & Hp) Hidx Hnu Hcompat HL Hinit.
+  set (stop := nth idx stops 0) in *.
+  assert (Hs : ~ In stop sequence) by (intro H; apply Hnu, Hu; auto).
+  split.
+  - intros o d Ha Ho Hd. rewrite in_app_iff in Hd. apply in_app_iff in Ho.
+    destruct Ho as [Ho|[<-|[]]].
+    + exfalso. destruct (in_dec Nat.eq_dec d sequence) as [Hin|Hnin]; [tauto|].
+      apply Hd. right. left. apply (Hcompat o d); auto.
+    + assert (HaL : In (stop, d, true) L).
+      { eapply Permutation_in; [symmetry; exact HL|]. apply in_outbound. auto. }
+      destruct (next_ds_spec L init) as [[_ Hno]|(b & Hb & Hbd & Hr)].
+      * specialize (Hno _ HaL). discriminate.
+      * rewrite Hr. f_equal.
+        assert (Hb' : In b (outbound arcs stop)) by (eapply Permutation_in; eauto).
+        apply in_outbound in Hb'. destruct Hb' as [Hb1 Hb2].
+        destruct b as [[bo bd] bdir]. simpl in *. subst.
+        apply (proj2 Hwf stop); auto.
+  - intros Hr d Hd. rewrite (Hinit Hr) in Hd.
+    destruct (next_ds_spec L None) as [[E _]|(b & Hb & Hbd & E)]; rewrite E in Hd; [discriminate|].
+    inversion Hd; subst.
+    assert (Hb' : In b (outbound arcs stop)) by (eapply Permutation_in; eauto).
+    apply in_outbound in Hb'. destruct Hb' as [Hb1 Hb2].
+    destruct b as [[bo bd] bdir]. simpl in *. subst.
+    exists stop. split; auto. split.
+    + apply in_app_iff. right. left. reflexivity.
+    + rewrite index_of_app_notin by exact Hs. simpl. rewrite Nat.eqb_refl, app_length. simpl. lia.
+Qed.
+
+(* a complete sequence satisfying the invariant is an allowed order *)
+Lemma Inv0_complete_valid : forall used sequence,
+  Inv0 used sequence -> length sequence = length stops -> valid_order stops arcs sequence.
+Proof.
+  intros used sequence (Hn & Hi & Hu & Hp) Hlen.
+  assert (Hperm : Permutation sequence stops).
+  { apply NoDup_Permutation_bis; auto. lia. }
+  split; auto. unfold order_ok. apply forallb_forall. intros [[o d] dir] Ha.
+  destruct (proj1 Hwf o d dir Ha) as [Ho Hd].
+  assert (Hd' : In d sequence) by (eapply Permutation_in; [symmetry; exact Hperm|exact Hd]).
+  destruct (Hp o d dir Ha) as [Hp1 _]. destruct (Hp1 Hd') as [Hlt Hdir].
+  apply andb_true_iff. split; [apply Nat.ltb_lt; exact Hlt|].
+  destruct dir; simpl; auto. apply Nat.eqb_eq. auto.
+Qed.
+
+(* what an allowed order says about the stop that follows a prefix *)
+Lemma valid_next : forall l sequence s t,
+  valid_order stops arcs l -> l = sequence ++ s :: t ->
+  In s stops /\ ~ In s sequence /\ cnt sequence s = 0 /\
+  (forall o d, In (o, d, true) arcs -> In o sequence ->
+               S (index_of o sequence) = length sequence -> d = s).
+Proof.
+  intros l sequence s t [Hperm Hok] ->.
+  assert (Hndl : NoDup (sequence ++ s :: t)) by (eapply Permutation_NoDup; [symmetry; exact Hperm|exact Hnd]).
+  assert (Hs : ~ In s sequence).
+  { intro H. apply NoDup_remove_2 in Hndl. apply Hndl. apply in_app_iff. auto. }
+  assert (Hidx : index_of s (sequence ++ s :: t) = length sequence).
+  { rewrite index_of_app_notin by exact Hs. simpl. rewrite Nat.eqb_refl. lia. }
+  split; [|split; [|split]].
+  - eapply Permutation_in; [exact Hperm|]. apply in_app_iff. right. left. reflexivity.
+  - exact Hs.
+  - apply cnt_zero_iff. intros o dir Ha.
+    destruct (order_ok_arc _ _ _ _ _ Hok Ha) as [Hlt _]. rewrite Hidx in Hlt.
+    destruct (in_dec Nat.eq_dec o sequence) as [Hin|Hnin]; auto.
+    rewrite index_of_app_notin in Hlt by exact Hnin. lia.
+  - intros o d Ha Ho Hlast.
+    destruct (order_ok_arc _ _ _ _ _ Hok Ha) as [_ Hdir]. specialize (Hdir eq_refl).
+    rewrite (index_of_app_in o) in Hdir by exact Ho. rewrite Hlast in Hdir.
+    destruct (in_dec Nat.eq_dec d sequence) as [Hin|Hnin].
+    + rewrite index_of_app_in in Hdir by exact Hin.
+      pose proof (proj2 (index_of_lt_In d sequence) Hin). lia.
+    + rewrite index_of_app_notin in Hdir by exact Hnin.
+      apply (index_of_head d s t). lia.
+Qed.
+
+End SeqGen.
